@@ -159,6 +159,7 @@ def inside_sandbox(sand, realpath):
 class C12(Check):
     PROP = 'C12'
     LEVEL = 'fault_enumeration'
+    POOL_DEPENDS_ON_SEED = False      # cases are self-contained: canonical replays run under every VERIF_SEED
     GROUP = 8
     RULE = ("case = (allow mode, main source kind, mechanism, target spelling, base_url trailing slash, XSD version) "
             "- the product of 5 allow modes x 14 mechanisms x 24 spellings is enumerated (thorough: completely, with "
